@@ -99,6 +99,33 @@ def run(ctx):
                                                                      observed=out[:300].decode("latin1")))
                             elif not err.strip():
                                 res.violations.append(vlib.Violation("failure without an error message on stderr", inp))
+        # ---- a git process that dies before it has read its input, while far more object ids remain to be sent to it than a
+        # pipe holds (thousands of roots for rev-list, thousands of trees and commits for cat-file --batch): the run must
+        # still terminate with an error
+        big = S.Scenario()
+        bb = big.add({"kind": "blob", "data": b"x\n"})
+        prev = None
+        nbig = 1800 if quick else 4000
+        for i in range(nbig):
+            t = big.add({"kind": "tree", "entries": [(0o100644, b"f%d" % i, bb)]})
+            prev = big.add({"kind": "commit", "tree": t, "parents": [prev] if prev is not None else [], "date": 1000000000 + i})
+            big.refs.append((b"refs/heads/b%05d" % i, prev))
+        big.compute()
+        border = big.enum_gitlike([x for _, x in big.refs])
+        for inv, cut in (("rev-list", -1), ("rev-list", 500), ("cat-file-batch-check", -1), ("cat-file-batch", -1), ("cat-file-batch", 2000)):
+            fault = {"exit": 128, "invocation": inv, "nth": 0, "after_bytes": cut, "stderr": "fatal: injected fault"}
+            rc, out, err, log = eng.run_fake(big, border, ["--json"], [], config=[], faults=[fault], extra_args=[], timeout=60)
+            inp = {"fault": fault, "argv": ["--json"], "repository": "%d commits, %d trees, %d references" % (nbig, nbig, nbig)}
+            res.case(("big", inv, cut), True)
+            if rc == "timeout":
+                outcomes["timeouts"] += 1
+                res.violations.append(vlib.Violation("run did not terminate within 60 s when %s died early on a large repository (hang)" % inv, inp))
+            elif rc == 0 or out or not err.strip():
+                res.violations.append(vlib.Violation("early death of %s on a large repository not reported cleanly" % inv, inp,
+                                                     expected="non-zero exit, empty stdout, message on stderr",
+                                                     observed={"rc": rc, "stdout": out[:200].decode("latin1"), "stderr": err[:200].decode("latin1")}))
+            else:
+                outcomes["failed_as_required"] += 1
         # ---- invalid input
         def expect_fail(what, **kw):
             rc, out, err, log = eng.run_fake(sc, order, kw.get("args", ["--json"]), kw.get("explicit", []), config=kw.get("config", cfg),
